@@ -157,6 +157,7 @@ func main() {
 		r.forkStates("forkstate", 0, fsRoutes, 5, "cases_forkstate")
 		r.forkStacks()
 		r.rootFamily(lib.NewRng(lib.NewRng(cfg.Seed ^ 0x726f6f74).Next()))
+		r.regFamily(lib.NewRng(lib.NewRng(cfg.Seed ^ 0x72656773).Next()))
 		r.gidSamples(24, "after-forkstate")
 		r.random(lib.NewRng(lib.NewRng(cfg.Seed).Next()))
 		r.gidSamples(24, "after-random")
@@ -185,6 +186,10 @@ func (r *runner) replay() {
 		}
 		if x.Kind == "c14-root" {
 			r.replayRoot(in)
+			continue
+		}
+		if x.Kind == "c14-reg" {
+			r.replayReg(in)
 			continue
 		}
 		if x.Kind == "c14-resident" {
